@@ -188,7 +188,7 @@ func d3Obligations(w *World, r *Report, fe *FactEngine, rule string, fn *ssa.Fun
 			return
 		}
 		px := pathOf(x)
-		ok, why := fe.Holds(in, pfact{kind: kLenMin, path: px, min: need}, 0)
+		ok, why := fe.HoldsVal(in, x, kLenMin, need)
 		r.check(ok, rule, shortFn(fn)+"/"+desc, lineOf(w, in), fmt.Sprintf("%s needs len(%s) >= %d on every path", desc, px, need), why)
 	})
 }
@@ -257,7 +257,7 @@ func runC15(w *World, r *Report) {
 			case *ssa.SliceToArrayPointer:
 				at := x.Type().Underlying().(*types.Pointer).Elem().Underlying().(*types.Array)
 				p := pathOf(x.X)
-				ok, why := fe.Holds(x, pfact{kind: kLenMin, path: p, min: at.Len()}, 0)
+				ok, why := fe.HoldsVal(x, x.X, kLenMin, at.Len())
 				r.check(ok, "D1-slice-to-array", shortFn(fn)+"/["+fmt.Sprint(at.Len())+"]byte("+p+")", lineOf(w, x),
 					fmt.Sprintf("conversion needs len(%s) >= %d on every path to it", p, at.Len()), why)
 			case *ssa.FieldAddr:
@@ -295,7 +295,7 @@ func runC15(w *World, r *Report) {
 		}
 		for _, c := range callsTo(fn, "crypto/ed25519.Verify") {
 			key := c.Common().Args[0]
-			ok, why := fe.Holds(c.(ssa.Instruction), pfact{kind: kLenEq, path: pathOf(key), min: 32}, 0)
+			ok, why := fe.HoldsVal(c.(ssa.Instruction), key, kLenEq, 32)
 			r.check(ok, "lib-preconditions", shortFn(fn)+"/ed25519.Verify", lineOf(w, c), "public key handed to ed25519.Verify has length exactly 32 (it panics otherwise)", why)
 		}
 	}
